@@ -243,6 +243,7 @@ func (p *Parser) parseGroupingSets() []ast.Expression {
 	}
 
 	for !p.currentIs(token.RPAREN) && !p.currentIs(token.EOF) {
+		startPos := p.current.Pos
 		// Each element in GROUPING SETS is a tuple or a single expression
 		if p.currentIs(token.LPAREN) {
 			// Parse as tuple
@@ -259,6 +260,10 @@ func (p *Parser) parseGroupingSets() []ast.Expression {
 		// Skip comma if present
 		if p.currentIs(token.COMMA) {
 			p.nextToken()
+		}
+		// Malformed input: nothing was consumed, stop instead of looping forever
+		if p.current.Pos == startPos {
+			break
 		}
 	}
 
@@ -3025,6 +3030,11 @@ func (p *Parser) parseAsteriskReplace(asterisk *ast.Asterisk) ast.Expression {
 			}
 		}
 
+		// Malformed input: nothing was consumed, stop instead of looping forever
+		if p.current.Pos == replace.Position {
+			break
+		}
+
 		asterisk.Replace = append(asterisk.Replace, replace)
 		replaces = append(replaces, replace)
 
@@ -3258,6 +3268,11 @@ func (p *Parser) parseColumnsReplace(matcher *ast.ColumnsMatcher) ast.Expression
 				replace.Name = p.current.Value
 				p.nextToken()
 			}
+		}
+
+		// Malformed input: nothing was consumed, stop instead of looping forever
+		if p.current.Pos == replace.Position {
+			break
 		}
 
 		matcher.Replace = append(matcher.Replace, replace)
